@@ -1492,7 +1492,10 @@ def gen_krylov_exact_cases(ctx, rng, nprng, n_cases):
             # (no composite below the Transpose: the action of Transpose(KrylovOperator) goes through the shim's linear_transpose)
             e, N = leaf, n
         else:
-            m = rng.choice([1, 2])
+            # multiplicity 1: with a multiplicity m > 1 the member receives the m sub-vectors of the operand as ONE batch, and integer
+            # sub-vectors may have different Krylov grades (found by the thorough tier: (3,-2,-1) has grade 2 for [[1,1,0],[1,3,1],[0,1,5]],
+            # (3,3,3) grade 3 -> LinAlgError in the batched Lanczos loop: C14 batch-member-breakdown, C09 krylov-batch-unequal-exhaustion)
+            m = 1
             e, N = ["bdiag", [leaf, ["diag", "f64", [rng.choice([1, 2, 3]) for _ in range(2)]]], [m, 1]], m * n + 2
         fn = rng.choice(["cube", "poly", "pow10"])
         c = {"op": e, "cls": "krylov-exact", "stream": "krylov-exact", "alg": alg, "kiters": n, "ktol": 1e-12}
